@@ -12,7 +12,8 @@ if "--tier" in args:
     tier = args[i + 1]
     del args[i:i + 2]
 checks = args or [seed.split("-")[0]]
-d = "/verif/seeded/%s" % seed
+ROOT = os.path.dirname(os.path.dirname(os.path.abspath(__file__)))     # /verif, or a snapshot copy of it
+d = "%s/seeded/%s" % (ROOT, seed)
 wt = tempfile.mkdtemp(prefix="seedrun-%s-" % seed)
 os.rmdir(wt)
 subprocess.run("git -C /repo worktree add --detach %s HEAD -q" % wt, shell=True, check=True)
@@ -26,7 +27,7 @@ try:
         sys.exit(2)
     env = dict(os.environ, VERIF_REPO=wt, VERIF_EVIDENCE_DIR=os.path.join(wt, "_evidence"))
     for c in checks:
-        p = subprocess.run("./check %s --tier %s" % (c, tier), shell=True, cwd="/verif", stdout=subprocess.PIPE,
+        p = subprocess.run("./check %s --tier %s" % (c, tier), shell=True, cwd=ROOT, stdout=subprocess.PIPE,
                            stderr=subprocess.STDOUT, universal_newlines=True, env=env)
         viol = [l for l in p.stdout.splitlines() if l.startswith("VIOLATION")]
         res[c] = {"rc": p.returncode, "violations": len(viol)}
